@@ -884,9 +884,76 @@ theorem containsRange_spec (b : Bitmap) (h : b.WF) (lo hi : Bound)
     rw [Bool.eq_iff_iff, crOk_iff st en hse b h.dir, beq_iff_eq,
       count_eq_iff _ (sorted_elems b h.dir) st en hse]
 
+/-! ### `is_full` -/
+
+theorem cStore_length_le (c : Container) (hc : c.store.Inv) : c.store.elems.length ≤ 65536 :=
+  (Arr.sorted_bounded_length c.store.elems (Store.sorted_elems _ hc) 0 65536 (by
+    intro x hx
+    have := Store.elems_lt _ hc x hx
+    omega)).1
+
+theorem cIsFull_iff_length (c : Container) (hc : c.store.Inv) :
+    c.isFull = true ↔ c.store.elems.length = 65536 := by
+  unfold Container.isFull Store.isFull
+  rw [beq_iff_eq, Store.len_eq _ hc]
+
+theorem sumLen_cons (c : Container) (cs : Bitmap) :
+    sumLen (c :: cs) = c.store.elems.length + sumLen cs := by
+  simp [sumLen]
+
+theorem sumLen_bound (b : Bitmap) (h : ∀ c ∈ b, c.store.elems.length ≤ 65536) :
+    sumLen b ≤ 65536 * b.length ∧
+      (sumLen b = 65536 * b.length → ∀ c ∈ b, c.store.elems.length = 65536) := by
+  induction b with
+  | nil => exact ⟨by simp [sumLen], by simp⟩
+  | cons c cs ih =>
+    have h0 := h c (List.mem_cons_self ..)
+    obtain ⟨ih1, ih2⟩ := ih (fun d hd => h d (List.mem_cons_of_mem _ hd))
+    rw [sumLen_cons, List.length_cons]
+    refine ⟨by omega, ?_⟩
+    intro heq d hd
+    rcases List.mem_cons.mp hd with hd' | hd'
+    · subst hd'; omega
+    · exact ih2 (by omega) d hd'
+
+theorem sumLen_full (b : Bitmap) (h : ∀ c ∈ b, c.store.elems.length = 65536) :
+    sumLen b = 65536 * b.length := by
+  induction b with
+  | nil => simp [sumLen]
+  | cons c cs ih =>
+    have h0 := h c (List.mem_cons_self ..)
+    have := ih (fun d hd => h d (List.mem_cons_of_mem _ hd))
+    rw [sumLen_cons, List.length_cons]
+    omega
+
+/-- strictly ascending keys below 2^16: at most 2^16 containers -/
+theorem dir_length_le (b : Bitmap) (h : b.Dir) : b.length ≤ 65536 := by
+  have := (Arr.sorted_bounded_length (b.map Container.key) h.1 0 65536 (by
+    intro k hk
+    obtain ⟨d, hd, rfl⟩ := List.mem_map.mp hk
+    have := (h.2 d hd).1
+    omega)).1
+  simpa using this
+
 /-- `is_full` ⇔ the set is all of `0 ..= u32::MAX` -/
 theorem isFull_spec (b : Bitmap) (h : b.WF) : isFull b = Spec.isFull u32Max (elems b) := by
-  sorry
+  have hdir := h.dir
+  have hcl : ∀ c ∈ b, c.store.elems.length ≤ 65536 := fun c hc => cStore_length_le c (hdir.inv hc)
+  have hbound := sumLen_bound b hcl
+  have hlen := dir_length_le b hdir
+  rw [Bool.eq_iff_iff]
+  simp only [isFull, Spec.isFull, Bool.and_eq_true, beq_iff_eq, List.all_eq_true]
+  rw [length_elems]
+  unfold u32Max
+  constructor
+  · rintro ⟨hl, hall⟩
+    have := sumLen_full b (fun c hc => (cIsFull_iff_length c (hdir.inv hc)).mp (hall c hc))
+    omega
+  · intro hsum
+    have hl : b.length = 65536 := by omega
+    refine ⟨hl, fun c hc => ?_⟩
+    rw [cIsFull_iff_length c (hdir.inv hc)]
+    exact hbound.2 (by omega) c hc
 
 /-- corollaries stated in the property: rank/select are mutually inverse on members -/
 theorem rank_select (b : Bitmap) (h : b.WF) (n : Nat) (hn : n < (elems b).length) :
